@@ -60,16 +60,18 @@ func (r *recStatter) SetInt(n string, v int64, rate float32, t ...cstatsd.Tag) e
 func (r *recStatter) Raw(n string, v string, rate float32, t ...cstatsd.Tag) error {
 	return r.add("Raw", n, 0, 0, rate, t)
 }
-func (r *recStatter) NewSubStatter(string) cstatsd.SubStatter { panic("harness: unexpected NewSubStatter") }
-func (r *recStatter) SetPrefix(string)                        { r.calls = append(r.calls, call{method: "SetPrefix"}) }
-func (r *recStatter) Close() error                            { r.calls = append(r.calls, call{method: "Close"}); return nil }
+func (r *recStatter) NewSubStatter(string) cstatsd.SubStatter {
+	panic("harness: unexpected NewSubStatter")
+}
+func (r *recStatter) SetPrefix(string) { r.calls = append(r.calls, call{method: "SetPrefix"}) }
+func (r *recStatter) Close() error     { r.calls = append(r.calls, call{method: "Close"}); return nil }
 
 type Op struct {
-	Kind    string `json:"k"` // counter gauge timer vhist dhist
-	Name    pbt.S  `json:"n"`
-	Tags    pbt.M  `json:"t,omitempty"`
-	I       int64  `json:"i,omitempty"`
-	F       pbt.F  `json:"f,omitempty"`
+	Kind    string  `json:"k"` // counter gauge timer vhist dhist
+	Name    pbt.S   `json:"n"`
+	Tags    pbt.M   `json:"t,omitempty"`
+	I       int64   `json:"i,omitempty"`
+	F       pbt.F   `json:"f,omitempty"`
 	VSpec   []pbt.F `json:"vs,omitempty"`
 	DSpec   []int64 `json:"ds,omitempty"`
 	Samples []int64 `json:"s,omitempty"`
